@@ -29,7 +29,7 @@ ENGINE = 'E2 bfs'
 LEVEL = 'model_checking'
 LEVEL_TEXT = (
     'Explicit-state breadth-first exploration of every statement history up to the stated depth '
-    'over an alphabet of up to 24 string statements (literal/concatenation/copy assignments in program '
+    'over an alphabet of up to 32 string statements (literal/concatenation/copy assignments in program '
     'and direct mode, MID$ and LSET/RSET statements, SWAP, array elements, ERASE/DIM, DEF FN calls, '
     'temporaries-only expressions, explicit collection, an over-long allocation), on real pcbasic '
     'Sessions whose memory is limited so that 12, 24, 40 or ~60000 bytes are free. States are merged '
@@ -119,12 +119,14 @@ OPS = [
     ('fn-two-temps', 'D', b'A$=FNU$(B$+"",C$(1)+"")'),
     # a temporary pending on the outer expression while a bracketed one allocates
     ('nested-concat', 'D', b'A$=(B$+"")+(C$(1)+B$)'),
+    # MID$ with a temporary as the new value: a target held in program text is copied first (room is made by a collection)
+    ('midset-temp', 'D', b'MID$(A$,2)=B$+"uv"'),
 ]
 LABELS = [o[0] for o in OPS]
 QUICK_OPS = [LABELS.index(l) for l in (
     'lit5-code', 'lit9-code', 'append-code', 'midset', 'lset', 'copy', 'concat-elem', 'swap', 'swap-elem',
     'elem-concat', 'erase', 'temps-only', 'fn-param-live', 'too-long', 'copy-elem-gc', 'elem0-chr', 'copy-elem0-gc',
-    'rset', 'expr-error', 'fn-num-after-temp', 'fn-two-temps', 'nested-concat')]
+    'rset', 'expr-error', 'fn-num-after-temp', 'fn-two-temps', 'nested-concat', 'midset-temp')]
 
 # memory configurations: free bytes of the set-up session
 CONFIGS = {'f12': 12, 'f24': 24, 'f40': 40, 'big': None}
@@ -190,6 +192,12 @@ def ref_step(ref, label):
             return E_IFC, ref, 0
         n.a = (b'zz'[:len(a)] + a[2:])[:len(a)]
         need = len(a)
+    elif label == 'midset-temp':
+        need = len(b) + 2 + 2
+        if len(a) < 2:
+            return E_IFC, ref, need
+        n.a = (a[:1] + (b + b'uv')[:len(a) - 1] + a[1 + len(b) + 2:])[:len(a)]
+        need += len(a)
     elif label == 'lset':
         n.a = b[:len(a)].ljust(len(a))
         need = len(a)
